@@ -23,7 +23,7 @@ Driver for C10: replays the traces observed by harness/h_C10.cpp on the IR seman
   nvnew <n>                -> `nv ok …`           a new `Circuit(n)` on the value semantics of the net arrays (`Model/NetsValue.lean`)
   nvadd <k> <k cells> <nx> <ny>                   `addNet` with k pin cells and offset vectors of nx / ny entries
   nvset <m> <m limits> <k> <k cells> <nx> <ny> <nw>   `setNets`
-                           -> `nv ok|throw <Wf 0|1> L <netLimits_> P <pinCells_> S <|xoffs|> <|yoffs|> <|weights|>`
+                           -> `nv ok|throw <Wf 0|1> L <netLimits_> P <pinCells_> S <|xoffs|> <|yoffs|> <|weights|> G <nbNets()> <per net: nbPinsNet(n) pinCell(n,0..)>`
 -/
 open ColoVerif ColoVerif.Busy ColoVerif.BusyIO ColoVerif.BusySizes ColoVerif.Gen Driver
 
@@ -36,6 +36,9 @@ def szLine (name busy free : String) (rest : List String) : String :=
 def nvLine (ok : Bool) (s : NetsValue.Nets) : String :=
   "nv " ++ (if ok then "ok" else "throw") ++ (if NetsValue.wfB s then " 1" else " 0") ++ " L " ++ showInts s.limits
     ++ " P " ++ showInts s.pins ++ " S " ++ toString s.nx ++ " " ++ toString s.ny ++ " " ++ toString s.nw
+    -- the inline getters, net by net: nbPinsNet(n), then pinCell(n, i) for every i
+    ++ " G " ++ toString (NetsValue.nbNets s) ++ " " ++ showInts ((List.range (NetsValue.nbNets s).toNat).flatMap (fun n =>
+        NetsValue.nbPinsNet s n :: (List.range (NetsValue.nbPinsNet s n).toNat).map (fun i => NetsValue.pinCell s n i)))
 
 /-- `<k> <k items> rest` -/
 def takeCounted (ws : List String) : List Int × List String :=
